@@ -60,6 +60,7 @@ type Expr struct {
 	ID         int      // code block id
 	Args       []string // labels the block body passes
 	Src        string   // optional explicit spelling of a terminal
+	Code       string   // optional explicit code block text (with braces)
 }
 
 type Rule struct {
